@@ -116,27 +116,58 @@ func (o *overlay) Writable() (backend.WritableFile, error) {
 }
 func (o *overlay) Path() string { return "" }
 
-func openFS(kind string, dev backend.Storage, size int64) (filesystem.FileSystem, error) {
+// openFS opens the image as spec says: kind[:sector[:start[:size]]] (see baseImage.spec); devLen is
+// the length of the device. Defaults: the kind's usual sector size, start 0, size = devLen-start.
+func openFS(spec string, dev backend.Storage, devLen int64) (filesystem.FileSystem, error) {
+	f := strings.Split(spec, ":")
+	kind := f[0]
+	num := func(i int) int64 {
+		if i < len(f) {
+			v, _ := strconv.ParseInt(f[i], 10, 64)
+			return v
+		}
+		return 0
+	}
+	sector, start, size := num(1), num(2), num(3)
+	if size == 0 {
+		size = devLen - start
+	}
+	pick := func(def int64) int64 {
+		if sector != 0 {
+			return sector
+		}
+		return def
+	}
 	switch kind {
 	case "fat12":
-		return fat12.Read(dev, size, 0, 512)
+		return fat12.Read(dev, size, start, pick(512))
 	case "fat16":
-		return fat16.Read(dev, size, 0, 512)
+		return fat16.Read(dev, size, start, pick(512))
 	case "fat32":
-		return fat32.Read(dev, size, 0, 512)
+		return fat32.Read(dev, size, start, pick(512))
 	case "ext4":
-		return ext4.Read(dev, size, 0, 512)
+		return ext4.Read(dev, size, start, pick(512))
 	case "iso9660":
-		return iso9660.Read(dev, size, 0, 2048)
+		return iso9660.Read(dev, size, start, pick(2048))
 	case "squashfs":
-		return squashfs.Read(dev, size, 0, 4096)
+		return squashfs.Read(dev, size, start, pick(4096))
 	}
 	return nil, errors.New("unknown kind")
 }
 
+// dbg prints why the walk counted an error (VERIF_C18_DEBUG=1; for the builder of a base image).
+func dbg(format string, a ...any) {
+	if os.Getenv("VERIF_C18_DEBUG") != "" {
+		fmt.Fprintf(os.Stderr, "walk: "+format+"\n", a...)
+	}
+}
+
+var readBuf = make([]byte, 64*1024)
+
 type walkStats struct {
 	began             time.Time
 	dirs, files, errs int
+	special           int // symlinks, fifos, sockets, devices met
 	bytes             int64
 }
 
@@ -156,9 +187,11 @@ func walk(fsys filesystem.FileSystem, dir string, depth int, st *walkStats, capB
 	r0 := timed(func() rd { e, err := fsys.ReadDir(dir); return rd{e, err} })
 	ents, err := r0.e, r0.err
 	if err != nil {
+		dbg("ReadDir %s: %v", dir, err)
 		st.errs++
 		return
 	}
+	empties := 0
 	for _, e := range ents {
 		name := e.Name()
 		if name == "." || name == ".." || name == "" {
@@ -169,6 +202,7 @@ func walk(fsys filesystem.FileSystem, dir string, depth int, st *walkStats, capB
 			p = dir + "/" + name
 		}
 		if err := timed(func() error { _, err := e.Info(); return err }); err != nil {
+			dbg("Info %s: %v", p, err)
 			st.errs++
 		}
 		if e.IsDir() {
@@ -179,7 +213,31 @@ func walk(fsys filesystem.FileSystem, dir string, depth int, st *walkStats, capB
 		if !readFiles {
 			continue
 		}
-		if err := timed(func() error { _, err := fsys.Stat(p); return err }); err != nil {
+		// an empty regular file has no block list, chain or fragment to consult: beyond the first eight of
+		// a directory such files are listed (their entry and inode are parsed by ReadDir / Info above) but
+		// not opened - a directory of hundreds of entries would otherwise cost a path walk per entry
+		if e.Type().IsRegular() {
+			if fi, err := e.Info(); err == nil && fi.Size() == 0 {
+				if empties++; empties > 8 {
+					continue
+				}
+			}
+		}
+		// symbolic links, fifos, sockets and devices have no body of their own: Stat/Open on them are
+		// still called (a dangling or '..' target, a fifo: an error is the right answer on the intact
+		// image too), but their refusal is not counted as damage
+		special := e.Type()&(fs.ModeSymlink|fs.ModeNamedPipe|fs.ModeSocket|fs.ModeDevice|fs.ModeCharDevice|fs.ModeIrregular) != 0
+		if special {
+			st.special++
+			if rl, ok := fsys.(interface{ ReadLink(string) (string, error) }); ok && e.Type()&fs.ModeSymlink != 0 {
+				if err := timed(func() error { _, err := rl.ReadLink(p); return err }); err != nil {
+					dbg("ReadLink %s: %v", p, err)
+					st.errs++
+				}
+			}
+		}
+		if err := timed(func() error { _, err := fsys.Stat(p); return err }); err != nil && !special {
+			dbg("Stat %s: %v", p, err)
 			st.errs++
 		}
 		type op struct {
@@ -189,10 +247,13 @@ func walk(fsys filesystem.FileSystem, dir string, depth int, st *walkStats, capB
 		o0 := timed(func() op { f, err := fsys.Open(p); return op{f, err} })
 		f, err := o0.f, o0.err
 		if err != nil {
-			st.errs++
+			if !special {
+				dbg("Open %s: %v", p, err)
+				st.errs++
+			}
 			continue
 		}
-		buf := make([]byte, 64*1024)
+		buf := readBuf // one buffer for the whole process: a fresh 64 KiB per file made the collector the main cost of a case
 		var total int64
 		for total < capBytes && time.Since(st.began) < 6*time.Second {
 			type rr struct {
@@ -204,6 +265,7 @@ func walk(fsys filesystem.FileSystem, dir string, depth int, st *walkStats, capB
 			total += int64(n)
 			if err != nil {
 				if err != io.EOF {
+					dbg("Read %s after %d bytes: %v", p, total, err)
 					st.errs++
 				}
 				break
